@@ -26,9 +26,9 @@ TEXT = {
   "technique": "TLA+ model checking (TLC) of evaluator/tracker + all-schedules model of the pool + trace validation of recorded evaluator calls",
  },
  "C14": {
-  "level": "TLC checks the stop rule (verdict = budget predicate, nothing evaluated after a positive check, at most one batch between checks, total within [n, n+batch)) as invariants / action property and termination as a liveness property under weak fairness (plus a no-fresh-individual variant that must produce a lasso); every budget check of real searches (4 algorithms, evaluation / target / disjunction budgets, step compositions) is recorded through a delegating SearchBudget and validated by TLC.",
+  "level": "TLC checks the stop rule (verdict = budget predicate, nothing evaluated after a positive check, at most one batch between checks, total within [n, n+batch)) as invariants / action property and termination as a liveness property under weak fairness (plus a no-fresh-individual variant that must produce a lasso); every budget check of real searches (4 algorithms and the self-configuring GP variants, evaluation / target / multi-objective target / disjunction budgets and TimeBudget on a virtual clock, step compositions) is recorded through a delegating SearchBudget and validated by TLC.",
   "ref": "DESIGN.md section 4 C14",
-  "note": "termination of the implementation is observed by a watchdog; wall-clock budgets excluded",
+  "note": "termination of the implementation is observed by a watchdog; wall-clock budgets only on a virtual clock (one second per fitness invocation)",
   "technique": "TLA+ model checking (TLC, safety + liveness) of the search loop + trace validation of recorded budget checks",
  },
  "C20": {
@@ -56,7 +56,7 @@ TEXT = {
   "technique": "TLA+ model checking (TLC) + exhaustive scripted-randomness enumeration of the real selection steps validated trace by trace",
  },
  "C01": {
-  "level": "TLC explores the create_node derivation machine (GESynthesis) for every grammar of a TLC-enumerated family x grow / full / PI-grow x depth limits and checks WellTypedWhenDone as an invariant; every program the real library creates, maps, mutates or crosses over with all five representations (fixed + generated grammars) is projected structurally and TLC evaluates WellTyped against the declared class hierarchy, rejects foreign / lazy values and non-library exceptions.",
+  "level": "TLC explores the create_node derivation machine (GESynthesis) for every grammar of a TLC-enumerated family x grow / full / PI-grow x depth limits and checks WellTypedWhenDone as an invariant, and the progressively-terminal decider (no limit) for termination (MC_SynPT: bounded depth, the rule before its repair must fail); every program the real library creates, maps, mutates or crosses over with all five representations (fixed + generated grammars) is projected structurally and TLC evaluates WellTyped against the declared class hierarchy, rejects foreign / lazy values and non-library exceptions.",
   "ref": "DESIGN.md section 4 C01",
   "note": "typing oracle = declared classes; user-defined metahandlers other than the shipped / test-suite ones not modelled",
   "technique": "TLA+ model checking (TLC) of the derivation machine + trace validation of every produced program with the WellTyped predicate evaluated by TLC",
@@ -64,7 +64,7 @@ TEXT = {
  "C02": {
   "level": "the derivation machine's invariant includes RefOK for every generated value; every program produced by the real code is checked by TLC against the documented predicate of each shipped metahandler at every refined position (top level, in lists, tuples, unions, dependent on actual sibling values), and validate() is called on generated values and must accept them.",
   "ref": "DESIGN.md section 4 C02",
-  "note": "stack representation: open finding (refinements never consulted)",
+  "note": "stack representation: open finding (refinements declared as objects are never consulted); with postponed annotations the stack machine is judged like the others",
   "technique": "TLA+ model checking (TLC) + trace validation with RefOK evaluated by TLC",
  },
  "C03": {
